@@ -24,7 +24,7 @@ CONFIGS_THOROUGH = CONFIGS_QUICK + [
 ]
 
 
-GEN_COUNT = {'quick': 36, 'thorough': 400}
+GEN_COUNT = {'quick': 24, 'thorough': 300}
 
 
 def programs(tier, kinds=('example', 'ok', 'verif', 'gen')):
